@@ -8,8 +8,10 @@ from ..verdict import EnumDomain, enum_members, pruned_edges
 
 CC = 'ndn.security.validator.cascade_validator.CascadeChecker'
 LV = 'ndn.app_support.light_versec.validator.lvs_validator'
-VERIFIER = {'SHA256_WITH_RSA': 'verify_rsa', 'SHA256_WITH_ECDSA': 'verify_ecdsa', 'HMAC_WITH_SHA256': 'verify_hmac',
-            'ED25519': 'verify_ed25519'}
+# public-key signature types -> verifier. HMAC is deliberately absent: the key material of the cascade comes from certificates
+# (public), so a MAC keyed with it can be forged by anyone (algorithm confusion) and must be refused.
+VERIFIER = {'SHA256_WITH_RSA': 'verify_rsa', 'SHA256_WITH_ECDSA': 'verify_ecdsa', 'ED25519': 'verify_ed25519'}
+SYMMETRIC = {'HMAC_WITH_SHA256'}
 MDA_MODULES = ('ndn.security.validator', 'ndn.app_support.light_versec.validator')
 
 
@@ -70,7 +72,7 @@ def run(R):
     vs = ctx(R, CC + '._verify_sig')
     members = enum_members(P, 'ndn.encoding.ndn_format_0_3.SignatureType')
     shipped = shipped_signer_types(P)
-    key_based = sorted(m for m in shipped if m not in ('DIGEST_SHA256', 'NULL'))
+    key_based = sorted(m for m in shipped if m not in ('DIGEST_SHA256', 'NULL') and m not in SYMMETRIC)
     R.need(set(key_based) == set(VERIFIER), f'key-based signer types {key_based} differ from the verifier table {sorted(VERIFIER)}')
     R.extra['signature_types'] = {'members': members, 'with_shipped_signer': shipped}
     dom = EnumDomain('SignatureType', members + ['<other>'])
@@ -93,7 +95,9 @@ def run(R):
         want = [VERIFIER[m]] if m in VERIFIER else ['False']
         if sorted(set(outs)) != want:
             R.fail('C14.EXH.1', inst, vs.qual, 'def _verify_sig', f'signature type {m} yields {sorted(set(outs))}, expected {want} '
-                   + ('(the verifier\'s verdict must be returned)' if m in VERIFIER else '(must be refused)'), site(vs, vs.f.node))
+                   + ('(the verifier\'s verdict must be returned)' if m in VERIFIER else
+                      '(a MAC keyed with public certificate content can be forged by anyone: must be refused)' if m in SYMMETRIC else '(must be refused)'),
+                   site(vs, vs.f.node))
         else:
             R.ok('C14.EXH.1', inst, site(vs, vs.f.node), str(want))
     R.paths_examined += len(dom.values)
